@@ -51,12 +51,15 @@ ListOf(c) ==
 \* history "late_add": the system (body and, if registered, the subsystem) was assembled, moved to a new configuration with
 \* set_new_initial_state (the joint rotated / the points moved apart), and only then the law is added and the system assembled
 \* again: the default reference is the value of the scalar coordinate at the CURRENT t0, q0
+\* history "used_then_reset": the assembled system is used (the law is evaluated at configurations away from the initial one, the joint turned
+\* forward and back beyond its initial angle, the points moved), then System.reset() is called: the initial configuration is stress free again
 Configs == [law : Laws, sub : Subs, reg : Regs, angle0 : {"zero", "nonzero"}, body : {"rigid", "rod"},
-            history : {"fresh", "after_restart", "late_add"}]
+            history : {"fresh", "after_restart", "late_add", "used_then_reset"}]
 
 Init == /\ cfg \in {c \in Configs : /\ (c.sub = "TwoPoint" => c.angle0 = "zero")
                                    /\ (c.body = "rod" => c.sub = "TwoPoint")
-                                   /\ (c.history = "late_add" => (c.reg # "after" /\ c.body = "rigid"))}
+                                   /\ (c.history = "late_add" => (c.reg # "after" /\ c.body = "rigid"))
+                                   /\ (c.history = "used_then_reset" => c.body = "rigid")}
         /\ order = ListOf(cfg)
         /\ prov = [o \in Objects |-> {}]
         /\ pc = 0 /\ err = "none" /\ lref = "unset"
